@@ -478,7 +478,7 @@ class Verifier:
         if contract.native_only:
             if native_bad:
                 args, d = native_bad[0]
-                full = f"{self.prop}/{fname}#{index}/bounded:native-contract-evaluation"
+                full = f"{self.prop}/{fname}#{index}/bounded:native-contract-evaluation" + (f".shard{shard[0]}" if shard[1] > 1 else "")
                 rep.violation(full, {"contract": fname, "clause": "native contract evaluation (bounded stand-in)", "args": repr(args), "native": d,
                                      "python": replay_snippet(self.cmod, index, args)})
             return
